@@ -162,6 +162,24 @@ func KVAlphabet() []Op {
 	setOp("Set/preserve", e0, true, false, J(`{"v":"setp"}`), 0)
 	setOp("Set/oversize", e0, false, false, bigBody, 0)
 	setOp("SetRaw/empty", e0, false, true, []byte{}, 0) // a present but zero-length body is still a body
+	// nil body: the call stores a document without a body; whether that is allowed is spec-silent, but
+	// whatever it leaves must be coherent (C05): all observers must agree it has no body.
+	add(Op{Name: "SetRaw/nil", EP: "SetRaw",
+		Run:  func(c *rosmar.Collection, env Env) Result { return resErr(c.SetRaw("k", 0, nil, nil)) },
+		Spec: func(pre Doc, env Env) Expect { return Expect{Live: No} }})
+	add(Op{Name: "AddRaw/nil", EP: "AddRaw",
+		Run: func(c *rosmar.Collection, env Env) Result {
+			added, err := c.AddRaw("k", 0, nil)
+			r := resErr(err)
+			r.Refused = err == nil && !added
+			return r
+		},
+		Spec: func(pre Doc, env Env) Expect {
+			if pre.Live {
+				return Expect{Succeeds: No, OutcomeProp: "C06"}
+			}
+			return Expect{Live: No}
+		}})
 
 	// ---- WriteCas --------------------------------------------------------------------------
 	writeCas := func(variant, tok string, e uint32, opt sgbucket.WriteOptions, val any, body []byte, tier int) {
